@@ -49,6 +49,8 @@ def _kind_of(vt, rvc):
 
 
 def compare_all(res, sp=None):
+    import gc
+    gc.collect()        # (classes an application defined and dropped are garbage with reference cycles: collect them before looking)
     import rv.api  # noqa
     import rv.controller as rvc
     from rv.modules import MODULE_CLASSES
